@@ -201,6 +201,24 @@ func checkC16(c c16Case, ctx *vCtx) *vFailure {
 			write(filepath.Join(cwd, fmt.Sprintf("log-%d.yaml", k)), c16LogText(k%4+1, layout))
 		}
 	}
+	// files that are none of the program's business: a configuration file at a place the documentation does not name,
+	// and namesakes of the data files beside the configuration file (a relative name is relative to the working
+	// directory, wherever the configuration file lives)
+	if err := os.MkdirAll(filepath.Join(home, ".config", "hranoprovod"), 0o755); err != nil {
+		vFault("mkdir: %v", err)
+	}
+	strayCfg := "[Global]\nDbFileName=" + filepath.Join(root, "stray-book.yaml") + "\nLogFileName=" + filepath.Join(root, "stray-log.yaml") + "\nDateFormat=02/01/2006\nNow=2019-09-09T00:00:00Z\n[Resolver]\nMaxDepth=1\n"
+	write(filepath.Join(home, ".config", "hranoprovod", "config"), strayCfg)
+	write(filepath.Join(home, ".hranoprovodrc"), strayCfg)
+	write(filepath.Join(cwd, ".hranoprovod"), strayCfg)
+	write(filepath.Join(cwd, "config"), strayCfg)
+	for _, besideCfg := range []string{root, filepath.Join(home, ".hranoprovod")} {
+		for _, nm := range append(append([]string{"food.yaml", "log.yaml"}, oddA...), oddB...) {
+			if _, err := os.Lstat(filepath.Join(besideCfg, nm)); err != nil {
+				write(filepath.Join(besideCfg, nm), "2021/07/07:\n  stray~: 7\nstray~:\n  stray~x: 7\n")
+			}
+		}
+	}
 	write(filepath.Join(root, "empty.yaml"), "")
 	// configuration file
 	var cfg strings.Builder
